@@ -44,3 +44,233 @@ impl GcContext<'_> {
         (inner.objs.len(), over, under, stale)
     }
 }
+
+/// H2: scripted heap driver.
+pub mod heap {
+    use std::cell::RefCell;
+    use std::rc::Rc;
+
+    use super::super::{Gc, GcContext, GcTrace, GcTraceCtx, GcView};
+
+    /// Test payload: a node with an id and a list of outgoing edges.
+    pub struct SimNode {
+        id: u32,
+        edges: RefCell<Vec<Gc<SimNode>>>,
+        dropped: Rc<RefCell<Vec<u32>>>,
+    }
+
+    impl GcTrace for SimNode {
+        fn trace<'a>(&self, ctx: &mut impl GcTraceCtx<'a>)
+        where
+            Self: 'a,
+        {
+            self.edges.trace(ctx);
+        }
+    }
+
+    impl Drop for SimNode {
+        fn drop(&mut self) {
+            self.dropped.borrow_mut().push(self.id);
+        }
+    }
+
+    enum Handle {
+        Weak(u32, Gc<SimNode>),
+        View(u32, GcView<SimNode>),
+    }
+
+    /// A heap of `SimNode`s plus a table of externally held handles,
+    /// addressed by slot number.
+    pub struct HeapSim {
+        ctx: GcContext<'static>,
+        handles: Vec<Option<Handle>>,
+        next_id: u32,
+        dropped: Rc<RefCell<Vec<u32>>>,
+    }
+
+    impl Default for HeapSim {
+        fn default() -> Self {
+            Self::new()
+        }
+    }
+
+    impl HeapSim {
+        pub fn new() -> Self {
+            Self {
+                ctx: GcContext::new(),
+                handles: Vec::new(),
+                next_id: 0,
+                dropped: Rc::new(RefCell::new(Vec::new())),
+            }
+        }
+
+        fn new_node(&mut self) -> SimNode {
+            let id = self.next_id;
+            self.next_id += 1;
+            SimNode {
+                id,
+                edges: RefCell::new(Vec::new()),
+                dropped: self.dropped.clone(),
+            }
+        }
+
+        fn push(&mut self, handle: Handle) -> usize {
+            self.handles.push(Some(handle));
+            self.handles.len() - 1
+        }
+
+        /// Allocates a node held by one external weak handle. Returns
+        /// `(node id, handle slot)`.
+        pub fn alloc(&mut self) -> (u32, usize) {
+            let node = self.new_node();
+            let id = node.id;
+            let gc = self.ctx.alloc(node);
+            (id, self.push(Handle::Weak(id, gc)))
+        }
+
+        /// Allocates a node held by one external strong view.
+        pub fn alloc_view(&mut self) -> (u32, usize) {
+            let node = self.new_node();
+            let id = node.id;
+            let view = self.ctx.alloc_view(node);
+            (id, self.push(Handle::View(id, view)))
+        }
+
+        /// `(node id, is_view)` of a live handle slot.
+        pub fn handle_info(&self, slot: usize) -> Option<(u32, bool)> {
+            match self.handles.get(slot)?.as_ref()? {
+                Handle::Weak(id, _) => Some((*id, false)),
+                Handle::View(id, _) => Some((*id, true)),
+            }
+        }
+
+        pub fn clone_handle(&mut self, slot: usize) -> Option<usize> {
+            let new = match self.handles.get(slot)?.as_ref()? {
+                Handle::Weak(id, gc) => Handle::Weak(*id, gc.clone()),
+                Handle::View(id, view) => Handle::View(*id, view.clone()),
+            };
+            Some(self.push(new))
+        }
+
+        pub fn drop_handle(&mut self, slot: usize) -> bool {
+            match self.handles.get_mut(slot) {
+                Some(h) if h.is_some() => {
+                    *h = None;
+                    true
+                }
+                _ => false,
+            }
+        }
+
+        fn try_view(&self, slot: usize) -> Option<GcView<SimNode>> {
+            match self.handles.get(slot)?.as_ref()? {
+                Handle::Weak(_, gc) => gc.inner.upgrade().map(|inner| GcView { inner }),
+                Handle::View(_, view) => Some(view.clone()),
+            }
+        }
+
+        /// Creates a new external view from a handle. `None` if the slot is
+        /// empty, `Some(Err(()))` if the object has been destroyed.
+        pub fn upgrade(&mut self, slot: usize) -> Option<Result<usize, ()>> {
+            let (id, _) = self.handle_info(slot)?;
+            match self.try_view(slot) {
+                Some(view) => Some(Ok(self.push(Handle::View(id, view)))),
+                None => Some(Err(())),
+            }
+        }
+
+        /// Creates a new external weak handle from a handle.
+        pub fn downgrade(&mut self, slot: usize) -> Option<usize> {
+            let new = match self.handles.get(slot)?.as_ref()? {
+                Handle::Weak(id, gc) => Handle::Weak(*id, gc.clone()),
+                Handle::View(id, view) => Handle::Weak(*id, Gc::from(view)),
+            };
+            Some(self.push(new))
+        }
+
+        fn gc_of(&self, slot: usize) -> Option<Gc<SimNode>> {
+            match self.handles.get(slot)?.as_ref()? {
+                Handle::Weak(_, gc) => Some(gc.clone()),
+                Handle::View(_, view) => Some(Gc::from(view)),
+            }
+        }
+
+        /// Adds an edge `from -> to`. `Some(false)` if `from` is destroyed.
+        pub fn add_edge(&mut self, from: usize, to: usize) -> Option<bool> {
+            let to_gc = self.gc_of(to)?;
+            self.handle_info(from)?;
+            match self.try_view(from) {
+                Some(view) => {
+                    view.edges.borrow_mut().push(to_gc);
+                    Some(true)
+                }
+                None => Some(false),
+            }
+        }
+
+        /// Removes the `index`-th edge of `from` (if it exists).
+        pub fn remove_edge(&mut self, from: usize, index: usize) -> Option<bool> {
+            self.handle_info(from)?;
+            match self.try_view(from) {
+                Some(view) => {
+                    let mut edges = view.edges.borrow_mut();
+                    if index < edges.len() {
+                        edges.remove(index);
+                    }
+                    Some(true)
+                }
+                None => Some(false),
+            }
+        }
+
+        pub fn clear_edges(&mut self, from: usize) -> Option<bool> {
+            self.handle_info(from)?;
+            match self.try_view(from) {
+                Some(view) => {
+                    view.edges.borrow_mut().clear();
+                    Some(true)
+                }
+                None => Some(false),
+            }
+        }
+
+        /// Reads the edges of a node: the target id, or `None` for a
+        /// destroyed target. Outer `None`: slot empty; `Some(None)`: `from`
+        /// is destroyed.
+        pub fn edges(&self, from: usize) -> Option<Option<Vec<Option<u32>>>> {
+            self.handle_info(from)?;
+            match self.try_view(from) {
+                Some(view) => Some(Some(
+                    view.edges
+                        .borrow()
+                        .iter()
+                        .map(|e| e.inner.upgrade().map(|inner| inner.value.id))
+                        .collect(),
+                )),
+                None => Some(None),
+            }
+        }
+
+        pub fn gc(&mut self) {
+            self.ctx.gc();
+        }
+
+        pub fn num_objects(&self) -> usize {
+            self.ctx.num_objects()
+        }
+
+        /// `(objects, over, under, stale)` as in the H3 audit.
+        pub fn audit(&self) -> (usize, usize, usize, usize) {
+            self.ctx.verif_audit()
+        }
+
+        /// Ids of the nodes destroyed since the last call.
+        pub fn take_dropped(&mut self) -> Vec<u32> {
+            std::mem::take(&mut *self.dropped.borrow_mut())
+        }
+
+        pub fn num_allocated(&self) -> u32 {
+            self.next_id
+        }
+    }
+}
